@@ -212,7 +212,7 @@ def run(ctx):
                                    "declaration of each kind (no previous token; LF, CRLF, byte order mark), as the whole file, and the in-body "
                                    "arrangements of at most two items in a CRLF file (%d files)" % len(edge))
     nsystematic = len(cases)
-    nfiles = ctx.budget(50, 800)
+    nfiles = ctx.budget(64, 1000)
     for i in range(nfiles):
         b, src = bases[i % len(bases)]
         c = {"mode": "compile", "text": S.retrivia(rng, src).hex()}
